@@ -5,30 +5,42 @@ from hypothesis import strategies as st
 from vlib.core import HypClause, Violation
 from vlib import util as U
 
-RULE = ("Hypothesis draws the structure - coefficient-vector length 1..60 (thorough 1..150), its zero pattern (dense, "
-        "random sparse, single term, trailing zeros), the container of the coefficients (float64 ndarray, strided view of a "
+RULE = ("Hypothesis draws the structure - coefficient-vector length 1..60 (thorough 1..150), its value pattern (dense, "
+        "random sparse, single term, trailing zeros, the all-zero vector, one value for every term), the container of the coefficients (float64 ndarray, strided view of a "
         "table, float32 ndarray, list, tuple, list of Python ints; where the routine only reads them also an int64 ndarray), Jacobi (alpha,beta) incl. pairs on and next to alpha+beta = 0, -1, the Q2d (n,m) "
         "set up to n = 20, |m| = 12 (thorough 40, 24) (distinct pairs in any "
         "order: cosine-only, sine-only, mixed, with / without m=0, unequal radial lengths per azimuthal order, "
         "azimuthal orders present in only one family, every drawn (n, |m|) given to both families, complete radial sets n = 0..N of a few orders "
         "in both families) and the value pattern of its coefficients (independent; the sine coefficient of an (n, |m|) exactly equal to the cosine "
         "coefficient; one constant; all ones), for hand-packed tables also the sine table as equal values in separate objects / the same row objects "
-        "/ the very table object given as cosine table, and the m = 0 vector being the object of the m = 1 cosine row; coordinate shape (python float, numpy scalar, 0-D, 1-D, 2-D), coordinate dtype "
-        "(float64, float32, for Jacobi complex128) and memory layout (C, Fortran, transposed view, strided view), the entry "
+        "/ the very table object given as cosine table, and the m = 0 vector being the object of the m = 1 cosine row; coordinate shape: every scalar flavour "
+        "(a bare Python int / bool at the whole numbers of the interval -1, 0, 1 resp. u = 0, 1; Python float, numpy float64 / float32 / longdouble "
+        "scalar, each at a random point, at either end of the interval or at 0; a true 0-d array) for the 1-D sums (Jacobi 'ndarray or float_like'; the Qbfs / "
+        "Qcon / 2D-Q radial routines take the same scalars on the unchanged tree), the real ones for compute_z_zprime_Q2d; 1-D, 2-D, and for the 1-D sums "
+        "also more than 2**16 points (65537, 70001, 3 x 22003; at most 6 terms then); coordinate dtype "
+        "(float64, float32, for Jacobi complex128) and memory layout (C, Fortran, transposed view, strided view); every argument by position or by its "
+        "documented name; Jacobi alpha / beta as Python numbers, numpy float64, and (whole values) Python int / numpy int64, the 2D-Q azimuthal order as Python "
+        "int / numpy int64 / int32; the entry "
         "point (jacobi_sum_clenshaw plain / with a caller-supplied alphas buffer / row [0][0] of jacobi_sum_clenshaw_der; "
         "clenshaw_qbfs, clenshaw_qbfs_der, compute_z_zprime_Qbfs / _Qcon / _Q2d; clenshaw_q2d / clenshaw_q2d_der for one azimuthal order, read as "
         "their documentation says), for every documented alphas= workspace (jacobi_sum_clenshaw, jacobi_sum_clenshaw_der, clenshaw_qbfs, "
         "clenshaw_qbfs_der, clenshaw_q2d, clenshaw_q2d_der) whether the caller supplies it - then one buffer serves every call of the case (other "
         "coefficients in between), zero-filled, or holding 3.25 / NaN where the unchanged routine assigns every row -, a history (nothing, or an earlier "
-        "single-precision call / a call with other coefficients), for lstsq the "
+        "single-precision call / a call with other coefficients; for Jacobi also two requests that cannot be served - no coefficient, a workspace that "
+        "does not fit - caught by the caller, and a burst of 28 other (alpha, beta) that overflows the table of recurrence coefficients), for lstsq the "
         "number of modes (1..36), grid, mode kind (random, Zernike, Hermite, Legendre, monomials; real or complex), the "
         "pattern of NaN / +inf / -inf samples (random, row+column, outside the disc, and valid samples only on a "
-        "sub-aperture / a thin annulus / a half plane, which makes disc- or square-orthogonal bases poorly conditioned) - "
+        "sub-aperture / a thin annulus / a half plane, which makes disc- or square-orthogonal bases poorly conditioned), the value pattern of the "
+        "synthesising coefficients (independent; all zero - data identically 0 on the valid samples; exactly one non-zero; all equal; whole numbers; one "
+        "term 1e8 times the others), the type of the arguments (double; data, modes or both single precision where cond < 1e3, judged at eps32; whole-number "
+        "modes in an int64 array), for Interferogram.pvr also the flat surface - "
         "and an integer from which the "
-        "coefficient values and coordinates are expanded; an overall decimal exponent of the data (1, 1e-9, 1e-12, 1e-17, 1e-20, 1e-30, 1e6, 1e30; "
+        "coefficient values and coordinates are expanded; an overall decimal exponent of the data (1, 1e-9, 1e-12, 1e-17, 1e-20, 1e-30, 1e6, 1e30; for the "
+        "lstsq data also 1e-290, 1e-150, 1e150, 1e250, where squares of the samples leave the double range; "
         "within the float32 range where single precision takes part): of the coefficients of every sum, for sum_of_2d_modes of the weights, of the "
         "modes, or of both in opposite directions, for lstsq of the data and (separately) of all modes alike, for Interferogram.pvr of the heights; sum_of_2d_modes also with modes that "
-        "are NaN at a quarter of the samples (the sum is NaN there and right elsewhere) and with one mode array object given at two places of the sequence "
+        "are NaN at a quarter of the samples (the sum is NaN there and right elsewhere; nothing is asserted there when every weight is zero), on thin grids of "
+        "more than 2**16 samples, and with one mode array object given at two places of the sequence "
         "(with independent or equal weights); lstsq also with the data being the very array object of one of the modes (the fit is that unit vector), lstsq also with modes that hold NaN / +-inf / 1e300 / a mixture "
         "at the samples the fit is told to ignore (all modes, or one of them).  The (n, m) terms and the coefficients of Q2d_nm_c_to_a_b ('iterable') are also given as "
         "things that can be walked once - zip(ns, ms), a generator expression, iter(list), map(...) - and as the keys / values views of a dict; the cosine / sine "
@@ -45,15 +57,20 @@ RULE = ("Hypothesis draws the structure - coefficient-vector length 1..60 (thoro
         "the routine is called again with other coefficients.  "
         "Tolerances: 1e-10 relative to sum|c_k| max|mode_k| (observed <= 2e-14 up to length 300) for sums in double, 1e-3 "
         "where coordinates or coefficients are single precision (observed <= 6e-6); fits: |c_fit - c| <= (1e-10 + 1000 "
-        "cond eps) max|c| with cond < 1e9 (numpy's SVD solver on the unchanged code: <= 40 cond eps and <= 2e-13 "
+        "cond eps) max|c| (for the all-zero vector: times the coefficient unit of the data's magnitude) with cond < 1e9 (numpy's SVD solver on the unchanged code: <= 40 cond eps and <= 2e-13 "
         "absolute over 3000 bases with cond 1 .. 1e10; a normal-equation solver is wrong by cond^2 eps).  Non-trivial = "
-        "sparse or length-1 vector, or an azimuthal order present in one family only, or "
+        "sparse, all-zero or length-1 vector, or an azimuthal order present in one family only, or "
         "a non-finite sample present, or a coordinate array that is not 1-D, or a non-default container / dtype / layout / "
         "entry point / history / magnitude.")
 ASSUMPTIONS = ["the scalar mode functions are the reference for the sums (their own correctness is C07)",
                "numpy / scipy linear algebra is correct", "coefficient vectors are non-empty and dense in order "
                "(ascending from order 0) as documented, floating point (integer ndarrays are not 'iterable of float'); the "
                "(n,m) list given to the packer has no repeated pair",
+               "a coordinate given as a scalar (or as whole numbers) may sit exactly where a mode vanishes: there each term counts with at least "
+               "magnitude |c_k| in the rounding scale (the scalar mode routine is the less accurate side at such points)",
+               "numpy integer / boolean coordinates of the 1-D Clenshaw sums and integer / boolean modes or complex weights of real modes in "
+               "sum_of_2d_modes are findings with pending repairs (fixes/C10/05, 06); they are drawn only when the module flags "
+               "CLENSHAW_WHOLE_COORDS / TENSOR_WEIGHTS_KEPT are set",
                "lstsq is only asked to fit when the masked design matrix has condition number < 1e9, three orders of "
                "magnitude inside numpy's default rank cut-off eps * samples (otherwise the case is counted as excluded)"]
 
@@ -83,7 +100,8 @@ def exp_label(e):
 def coef_spec(L):
     """[length, pattern, k]: pattern dense | sparse | single | trailing-zeros ; the values come from the case seed"""
     n = st.one_of(st.sampled_from([1, 2, 3]), st.integers(1, 12), st.integers(4, 12), st.integers(4, 12), st.integers(13, L))
-    return st.tuples(n, st.sampled_from(['dense', 'dense', 'sparse', 'single', 'tail0']), st.integers(0, 10 ** 6)).map(list)
+    return st.tuples(n, st.sampled_from(['dense', 'dense', 'dense', 'dense', 'sparse', 'sparse', 'single', 'single', 'tail0', 'tail0', 'zero', 'equal']),
+                     st.integers(0, 10 ** 6)).map(list)
 
 
 def expand_coefs(spec, seed, salt):
@@ -102,11 +120,17 @@ def expand_coefs(spec, seed, salt):
         c = z
     elif pattern == 'tail0' and n > 1:
         c[1 + k % (n - 1):] = 0.0
+    elif pattern == 'zero':                   # the all-zero coefficient vector: the surface is identically zero
+        c = np.zeros(n)
+    elif pattern == 'equal':                  # one value for every term (exact ties)
+        c = np.full(n, c[k % n])
     return c
 
 
 def coef_class(c):
     nz = int(np.count_nonzero(c))
+    if nz == 0:
+        return 'all-zero'
     if len(c) == 1:
         return 'len1'
     if nz == 1:
@@ -151,37 +175,110 @@ def same_values(arg, values):
     return a.shape == np.shape(values) and bool(np.all(a == values))
 
 
-def point_spec(D):
+# every scalar flavour of a coordinate ('x : ndarray or float_like'; the Q routines say 'ndarray' and take the same scalars on the
+# unchanged tree).  A spec is [kind, shape] or, for a scalar, [kind, [], pick]:
+#   pyint, pybool : a bare Python int / bool - the whole numbers of the interval (-1, 0, 1; for u: 0, 1; False, True)
+#   pyfloat, npscalar (np.float64), np.float32, np.longdouble : a random point, or (pick) the lower end, the upper end, zero
+# (0-d arrays are ['array', []] in the coordinate dtype of the case).  numpy *integer* scalars and integer arrays are not generated: the
+# unchanged routines allocate their sums in the dtype of such an x and truncate (as do the explicit sequence forms).
+SCALAR_REAL = ['pyfloat', 'npscalar', 'np.float32', 'np.longdouble']
+# The unchanged 1-D Clenshaw routines allocate their sums in the dtype of a coordinate that has one: numpy integer / boolean scalars,
+# 0-d arrays and arrays of whole numbers (the ends and the middle of the interval written as [-1, 0, 1]) truncate every partial sum,
+# where a Python int is summed in floating point.  Repair: fixes/C10/06-clenshaw-sums-whole-number-coordinates.patch.  These
+# coordinate types (signed integers and booleans; unsigned ones wrap inside 2 - 4 x) are drawn once that repair is in the repository
+# (set this to True then); the replays of the finding run either way.
+CLENSHAW_WHOLE_COORDS = False
+WHOLE_DTYPES = ['int64', 'int32', 'int8', 'bool']
+SCALAR_WHOLE_NP = ['np.int64', 'np.int32', 'np.int8', 'np.bool_']
+SCALAR_KINDS = ['pyint', 'pyint', 'pybool', 'pybool'] + SCALAR_REAL + SCALAR_REAL[1:] + (SCALAR_WHOLE_NP if CLENSHAW_WHOLE_COORDS else [])
+SCALAR_PICKS = ['drawn', 'drawn', 'lo', 'hi', 'zero']
+COORD_DTYPES = ['float64', 'float64', 'float64', 'float32'] + (WHOLE_DTYPES if CLENSHAW_WHOLE_COORDS else [])
+
+
+BIG_POINTS = [[65537], [70001], [3, 22003]]      # more than 2**16 coordinates, not a multiple of it (such a case carries at most BIG_TERMS terms)
+BIG_TERMS = 6
+
+
+def point_spec(D, scalars=SCALAR_KINDS, big=False):
     d = st.integers(1, D)
-    return st.one_of(st.just(['pyfloat', []]), st.just(['npscalar', []]), st.just(['array', []]), d.map(lambda a: ['array', [a]]),
-                     st.tuples(d, d).map(lambda t: ['array', list(t)]), st.tuples(d, d).map(lambda t: ['array', list(t)]))
+    scalar = st.tuples(st.sampled_from(scalars), st.just([]), st.sampled_from(SCALAR_PICKS)).map(list)
+    two = st.tuples(d, d).map(lambda t: ['array', list(t)])
+    return st.one_of(scalar, scalar, st.just(['array', []]), d.map(lambda a: ['array', [a]]), two,
+                     st.one_of(two, two, two, st.sampled_from(BIG_POINTS).map(lambda sh: ['array', list(sh)])) if big else two)
+
+
+def is_big(spec):
+    return int(np.prod(spec[1], dtype=np.int64)) > 2 ** 12 if spec[1] else False
+
+
+def is_scalar(spec):
+    return spec[0] != 'array'
 
 
 def points(spec, seed, lo, hi, salt, dtype='float64', layout='C'):
-    kind, shape = spec
+    kind, shape = spec[0], spec[1]
+    pick = spec[2] if len(spec) > 2 else 'drawn'
     r = U.rng_of(seed, salt)
     x = r.uniform(lo, hi, tuple(int(s) for s in shape))
     pin = r.integers(0, 24, x.shape)
     x = np.where(pin == 0, lo, np.where(pin == 1, hi, x))
-    if kind == 'pyfloat':
-        return float(x)
-    if kind == 'npscalar':
-        return np.float64(x)
+    if kind != 'array':
+        if kind in ('pyint', 'pybool') or kind in SCALAR_WHOLE_NP:
+            whole = [i for i in range(int(np.ceil(lo)), int(np.floor(hi)) + 1) if 'bool' not in kind or i in (0, 1)]
+            i = {'lo': whole[0], 'hi': whole[-1], 'zero': 0}.get(pick, whole[int(r.integers(0, len(whole)))])
+            return {'pyint': int, 'pybool': bool, 'np.int64': np.int64, 'np.int32': np.int32, 'np.int8': np.int8, 'np.bool_': np.bool_}[kind](i)
+        v = {'lo': float(lo), 'hi': float(hi), 'zero': 0.0}.get(pick, float(x))
+        return {'pyfloat': float, 'npscalar': np.float64, 'np.float32': np.float32, 'np.longdouble': np.longdouble}[kind](v)
     if dtype.startswith('complex'):
         r2 = U.rng_of(seed, salt + 1000)
         x = x + 1j * np.where(r2.integers(0, 4, x.shape) == 0, 0.0, r2.uniform(-0.3, 0.3, x.shape))
+    elif dtype in WHOLE_DTYPES:        # the whole numbers of the interval
+        x = r.integers(max(int(np.ceil(lo)), 0 if dtype == 'bool' else -9), min(int(np.floor(hi)), 1 if dtype == 'bool' else 9) + 1, x.shape)
+    if not shape:                      # a true 0-d array (relayout's ascontiguousarray would make it 1-D)
+        return np.array(x, dtype=dtype)
     return U.relayout(np.asarray(x, dtype=dtype), layout)
 
 
+def whole_coords(spec, dtype):
+    """the coordinate is whole-number typed (Python int / bool, numpy integer / boolean scalar or array)"""
+    return spec[0] in ('pyint', 'pybool') or spec[0] in SCALAR_WHOLE_NP if spec[0] != 'array' else dtype in WHOLE_DTYPES
+
+
+def coord_single(spec, dtype):
+    """the coordinate is single precision (an array of float32, or a numpy float32 scalar)"""
+    return dtype == 'float32' if spec[0] == 'array' else spec[0] == 'np.float32'
+
+
+def as_single(x, spec, seed, lo, hi, salt, dtype, layout):
+    """the same coordinate in single precision (for the call that precedes the checked one)"""
+    if is_scalar(spec):
+        return np.float32(x)
+    return points(spec, seed, lo, hi, salt, 'complex64' if dtype.startswith('complex') else 'float32', layout)
+
+
 def f64(x):
-    """the double precision value of a coordinate argument (single precision coordinates are exact in double)"""
+    """the double precision value of a coordinate argument (single precision coordinates and whole numbers are exact in double)"""
     if isinstance(x, float):
         return x
     return np.asarray(x, dtype=np.complex128 if np.iscomplexobj(x) else np.float64)
 
 
 def pt_class(spec):
-    return spec[0] if spec[0] in ('pyfloat', 'npscalar') else 'ndim%d' % len(spec[1])
+    return spec[0] if spec[0] != 'array' else 'ndim%d' % len(spec[1])
+
+
+def pt_labels(spec, x):
+    """labels of a scalar coordinate: its flavour, and whether its value is a whole number (an end or the middle of the interval)"""
+    if not is_scalar(spec):
+        return []
+    return ['scalar-coordinate:' + spec[0], 'scalar-value:' + ('whole' if float(x) == int(float(x)) else 'fraction')]
+
+
+def ws_dtype(x):
+    """dtype of a caller-supplied alphas workspace for the coordinate x: that of x where x is floating point (at least single),
+    double for a Python scalar (the library's own default)"""
+    dt = np.asarray(x).dtype
+    return np.result_type(dt, np.float32) if dt.kind in 'fc' else np.dtype(np.float64)
 
 
 # caller-supplied workspaces (alphas=): what the buffer holds when it is handed over.  'zeros' is what the library would allocate
@@ -201,8 +298,37 @@ def _guard(ctx, cls, fn, *a, **k):
         raise Violation(v.bucket + ':' + cls, v.msg) from v
 
 
-def explicit_sum(ctx, mode, cs, shape, dtype=np.float64, single=False):
+def _call(ctx, cls, fn, names, args, kw, **extra):
+    """fn(*args, **extra) with the arguments by position, or every one of them by its documented name"""
+    if kw:
+        return _guard(ctx, cls, fn, **dict(zip(names, args)), **extra)
+    return _guard(ctx, cls, fn, *args, **extra)
+
+
+# the documented parameter names of the fast paths
+NAMES = {'jacobi_sum_clenshaw': ('s', 'alpha', 'beta', 'x'), 'jacobi_sum_clenshaw_der': ('s', 'alpha', 'beta', 'x'),
+         'clenshaw_qbfs': ('cs', 'usq'), 'clenshaw_qbfs_der': ('cs', 'usq'), 'compute_z_zprime_Qbfs': ('coefs', 'u', 'usq'),
+         'compute_z_zprime_Qcon': ('coefs', 'u', 'usq'), 'clenshaw_q2d': ('cns', 'm', 'usq'), 'clenshaw_q2d_der': ('cns', 'm', 'usq'),
+         'compute_z_zprime_Q2d': ('cm0', 'ams', 'bms', 'u', 't'), 'Q2d_nm_c_to_a_b': ('nms', 'coefs')}
+
+
+def param_as(v, how):
+    """a real parameter (alpha, beta) or an integer order (m) as callers hold it: the Python number as drawn, a numpy float64, and -
+    where it is a whole number - a Python int or a numpy int64 (0-d arrays cannot be hashed by the cached recurrence tables)"""
+    if how == 'np.float64':
+        return np.float64(v)
+    if how in ('int', 'np.int64', 'np.int32') and float(v).is_integer():
+        return {'int': int, 'np.int64': np.int64, 'np.int32': np.int32}[how](int(v))
+    return v
+
+
+def explicit_sum(ctx, mode, cs, shape, dtype=np.float64, single=False, one_point=False):
     """sum_k c_k mode(k) with the magnitude sum_k |c_k| max|mode(k)| that sets the rounding scale.
+
+    one_point: the coordinate is one scalar, possibly exactly 0 or an end of the interval, where a mode can (nearly) vanish although it is
+    formed from terms of order 1 - P_1^(0, 1e-9)(0) = 1 - 1 - 5e-10 in the scalar routine, which is the less accurate side there.  Neither
+    side can do better than eps times those terms, so a mode counts with at least magnitude 1 (the modes are normalised to order 1 on
+    their interval; the observed errors stay <= 1e-3 of the tolerance).
 
     single: the routine is given single-precision coordinates or coefficients.  No routine can be more accurate than the rounding
     of its own input (one ulp of float32 in the coordinate moves mode k by about eps32 * k^2 * O(1)), so the magnitude has the floor
@@ -216,7 +342,7 @@ def explicit_sum(ctx, mode, cs, shape, dtype=np.float64, single=False):
             continue
         mk = np.asarray(ctx.call(mode, k), dtype=dtype)
         total = total + float(c) * mk
-        mag += abs(float(c)) * float(np.max(np.abs(mk))) if mk.size else 0.0
+        mag += abs(float(c)) * (max(float(np.max(np.abs(mk))), 1.0) if one_point else float(np.max(np.abs(mk)))) if mk.size else 0.0
         floor += abs(float(c)) * (1 + k) ** 2 * 5e-4
     return total, (max(mag, floor) if single else mag)
 
@@ -237,14 +363,22 @@ def snapshot(x):
 
 
 # ---- sum_of_2d_modes -------------------------------------------------------------------------------
+# The unchanged sum_of_2d_modes casts the weights to the dtype of the modes: integer / boolean modes (segment masks, index ramps) truncate
+# them, real modes discard the imaginary part of complex weights.  Repair: fixes/C10/05-sum-of-2d-modes-weights-cast.patch.  The two input
+# classes are drawn once that repair is in the repository (set this to True then); the replays of the finding run either way.
+TENSOR_WEIGHTS_KEPT = False
+WHOLE_MODES = ['int64', 'int32', 'uint8', 'bool']
+
+
 def strat_tensor(tier):
     D = {'quick': 8, 'thorough': 24}[tier]
     d = st.integers(1, D)
     return st.fixed_dictionaries({
         'coefs': coef_spec(LMAX[tier]), 'shape': st.one_of(st.tuples(d, d).map(list), d.map(lambda a: [a, a]), d.map(lambda a: [a]),
-                                                           st.just([1, 1]), st.just([67, 263])),
+                                                           st.just([1, 1]), st.just([67, 263]), st.sampled_from([[3, 22003], [65537, 1], [1, 70001]])),
         'container': st.sampled_from(['array', 'array', 'list', 'list-weights', 'tuple', 'int-weights']),
-        'dtype': st.sampled_from(['float64', 'float64', 'float32', 'complex128']), 'layout': U.layouts,
+        'dtype': st.sampled_from(['float64', 'float64', 'float32', 'complex128'] + (WHOLE_MODES if TENSOR_WEIGHTS_KEPT else [])), 'layout': U.layouts,
+        'cweights': st.sampled_from([False, False, False, True]) if TENSOR_WEIGHTS_KEPT else st.just(False),
         'history': st.sampled_from(['none', 'none', 'single-first', 'other-weights']), 'kw': st.booleans(), 'seed': U.seeds,
         # magnitude: the weights, the modes, or both in opposite directions (sum of order 1) carry the decimal exponent
         'wexp': wexps, 'scaled': st.sampled_from(['weights', 'weights', 'modes', 'opposite']),
@@ -272,16 +406,25 @@ def check_tensor(case, ctx):
     modes = U.rng_of(case['seed'], 2).uniform(-1, 1, (k,) + shape)
     if dtype.startswith('complex'):
         modes = modes + 1j * U.rng_of(case['seed'], 3).uniform(-1, 1, (k,) + shape)
-    e = wexp_of(case, single=dtype == 'float32', hi=30)
+    whole = dtype in WHOLE_MODES
+    if whole:                                            # whole-number modes -3..3 (uint8: 0..3, bool: False / True)
+        modes = np.rint(3 * modes)
+        modes = np.abs(modes) if dtype == 'uint8' else (modes > 0).astype(np.float64) if dtype == 'bool' else modes
+    cweights = bool(case.get('cweights', False)) and container != 'int-weights'
+    if cweights:                                         # complex weights (of real or complex modes)
+        w = w + 1j * np.where(w != 0, U.rng_of(case['seed'], 5).uniform(-1, 1, k), 0.0)
+    e = wexp_of(case, single=dtype == 'float32', hi=30, integer=whole and container == 'int-weights')
     scaled = case.get('scaled', 'weights')
     if container == 'int-weights':
         scaled = 'modes'                                 # whole-number weights: only the modes carry the magnitude
+    elif whole:
+        scaled = 'weights'                               # whole-number modes: only the weights do
     if e and scaled in ('weights', 'opposite'):
         w = w * 10.0 ** e
     if e and scaled in ('modes', 'opposite'):
         modes = modes * 10.0 ** (e if scaled == 'modes' else -e)
     mscale = 10.0 ** ((e if scaled == 'modes' else -e if scaled == 'opposite' else 0) if e else 0)
-    nanpix = bool(case.get('nanpix', False)) and int(np.prod(shape)) > 1
+    nanpix = bool(case.get('nanpix', False)) and int(np.prod(shape)) > 1 and not whole
     if nanpix:
         hole = U.rng_of(case['seed'], 4).uniform(0, 1, shape) < 0.25
         modes[:, hole] = np.nan
@@ -293,32 +436,40 @@ def check_tensor(case, ctx):
     modes = U.relayout(modes.astype(dtype), layout)
     cls = coef_class(w)
     ctx.nt(cls != 'dense' or shape[0] != shape[-1] or dtype != 'float64' or layout != 'C' or container != 'array' or history != 'none' or e != 0 or nanpix
-           or dup != 'none')
-    ctx.label('same-mode-twice:' + dup)
+           or dup != 'none' or cweights)
+    ctx.label('same-mode-twice:' + dup, 'weights:' + ('complex' if cweights else 'real'))
     ctx.label(cls, 'ndim%d' % len(shape), container, dtype, 'k==rows' if k == shape[0] else 'k!=rows', 'layout:' + layout,
-              'history:' + history, 'len>=13' if k >= 13 else 'len<13', 'big' if int(np.prod(shape)) > 2 ** 12 else 'small',
+              'history:' + history, 'len>=13' if k >= 13 else 'len<13', 'big>2**16' if int(np.prod(shape)) > 2 ** 16 else 'big' if int(np.prod(shape)) > 2 ** 12 else 'small',
               exp_label(e), 'scaled:' + (scaled if e else 'nothing'), 'modes-nan-at-some-samples' if nanpix else 'modes-finite')
     rows = [m for m in modes]
     if dup != 'none':
         rows[k - 1] = rows[0]                            # one array object at two places of the sequence
     arg_m = {'list': rows, 'list-weights': rows, 'tuple': tuple(rows)}.get(container, modes)
-    arg_w = {'list-weights': [float(v) for v in w], 'tuple': tuple(float(v) for v in w), 'int-weights': w.astype(np.int64)}.get(container, w.copy())
+    num = complex if cweights else float
+    arg_w = {'list-weights': [num(v) for v in w], 'tuple': tuple(num(v) for v in w), 'int-weights': w.real.astype(np.int64)}.get(container, w.copy())
     if history == 'single-first':
-        _guard(ctx, cls, P.sum_of_2d_modes, modes.astype('complex64' if dtype.startswith('complex') else 'float32'), w.astype(np.float32))
+        _guard(ctx, cls, P.sum_of_2d_modes, modes.astype('complex64' if dtype.startswith('complex') else 'float32'), w.astype(np.complex64 if cweights else np.float32))
     elif history == 'other-weights':
         _guard(ctx, cls, P.sum_of_2d_modes, arg_m, w[::-1].copy())
     m_before = modes.copy()
     got = _guard(ctx, cls, P.sum_of_2d_modes, modes=arg_m, weights=arg_w) if case.get('kw', False) else _guard(ctx, cls, P.sum_of_2d_modes, arg_m, arg_w)
     unchanged(ctx, modes, m_before, 'sum_of_2d_modes:argument-modified:modes', 'the mode stack')
-    ctx.require(same_values(arg_w, w), 'sum_of_2d_modes:argument-modified:weights', 'the weights %r became %r' % ([float(v) for v in w], arg_w))
-    want = np.zeros(shape, dtype=np.complex128 if dtype.startswith('complex') else np.float64)
+    ctx.require(np.shape(arg_w) == w.shape and bool(np.all(np.asarray(arg_w) == w)), 'sum_of_2d_modes:argument-modified:weights',
+                'the weights %r became %r' % ([num(v) for v in w], arg_w))
+    want = np.zeros(shape, dtype=np.complex128 if dtype.startswith('complex') or cweights else np.float64)
     for i in range(k):
         want = want + w[i] * modes[i].astype(want.dtype)
     U.check_shape(got, shape, 'sum_of_2d_modes:' + cls, 'sum of %d modes of shape %s' % (k, shape))
-    mag = float(np.sum(np.abs(w))) * (1.5 if dtype.startswith('complex') else 1.0) * mscale
-    rtol = 1e-12 * k if dtype in ('float64', 'complex128') else 1e-5 * k
-    mcls = '' if e == 0 else ':%s-1e%+d' % (scaled, e)
-    cmp_sum(got, want, mag, 'sum_of_2d_modes:%s:%s%s' % (cls, dtype, mcls), 'sum_of_2d_modes of %d modes %s (%s, %s%s%s)' % (
+    if nanpix and not np.any(w):
+        # every weight is zero: whether 0 * NaN is formed (NaN) or skipped (0) at the samples without a mode value is the business of the
+        # BLAS behind tensordot; nothing is asserted there
+        got_cmp = np.where(hole, np.nan, np.asarray(got))
+    else:
+        got_cmp = got
+    mag = float(np.sum(np.abs(w))) * (1.5 if dtype.startswith('complex') else 3.0 if whole else 1.0) * mscale
+    rtol = 1e-5 * k if dtype == 'float32' else 1e-12 * k
+    mcls = ('' if e == 0 else ':%s-1e%+d' % (scaled, e)) + (':complex-weights' if cweights else '')
+    cmp_sum(got_cmp, want, mag, 'sum_of_2d_modes:%s:%s%s' % (cls, dtype, mcls), 'sum_of_2d_modes of %d modes %s (%s, %s%s%s)' % (
         k, shape, container, layout, mcls.replace(':', ', '), ', modes NaN at %d samples' % int(hole.sum()) if nanpix else ''), rtol=rtol)
     kept = np.array(got, copy=True)
     other = _guard(ctx, cls, P.sum_of_2d_modes, arg_m, w[::-1].copy())
@@ -326,6 +477,8 @@ def check_tensor(case, ctx):
     want2 = np.zeros(shape, dtype=want.dtype)
     for i in range(k):
         want2 = want2 + w[k - 1 - i] * modes[i].astype(want.dtype)
+    if nanpix and not np.any(w):
+        other = np.where(hole, np.nan, np.asarray(other))
     cmp_sum(other, want2, mag, 'sum_of_2d_modes:second-call:%s%s' % (dtype, mcls), 'second call with the weights reversed', rtol=rtol)
 
 
@@ -350,11 +503,13 @@ def strat_jacobi(tier):
                        lambda t: [t[0] + t[2], t[1] - t[3]]),
                    # next to Legendre's (0, 0) by less than numpy.isclose's default absolute tolerance
                    st.tuples(st.sampled_from(_TINY), st.sampled_from(_TINY)).filter(lambda t: t != (0.0, 0.0)).map(list))
-    return st.fixed_dictionaries({'coefs': coef_spec(LMAX[tier]), 'ab': ab, 'x': point_spec(DMAX[tier]),
+    return st.fixed_dictionaries({'coefs': coef_spec(LMAX[tier]), 'ab': ab, 'x': point_spec(DMAX[tier], big=True),
                                   'container': st.sampled_from(CONTAINERS_READ_ONLY), 'via': st.sampled_from(['plain', 'plain', 'alphas-buffer', 'alphas-reused', 'alphas-reused', 'der-row0', 'der-alphas']),
                                   'fill': st.sampled_from(['zeros', 'junk', 'nan']),
-                                  'xdtype': st.sampled_from(['float64', 'float64', 'float64', 'float32', 'complex128']), 'layout': U.layouts,
-                                  'history': st.sampled_from(['none', 'none', 'single-first', 'other-ab']), 'seed': U.seeds, 'wexp': wexps})
+                                  'xdtype': st.sampled_from(COORD_DTYPES + ['complex128']), 'layout': U.layouts,
+                                  'history': st.sampled_from(['none', 'none', 'none', 'single-first', 'other-ab', 'failed-call', 'burst']), 'seed': U.seeds, 'wexp': wexps,
+                                  # arguments by position or by name; alpha / beta as Python numbers, numpy float64, (whole values) Python int / numpy int64
+                                  'kw': st.booleans(), 'ab_as': st.sampled_from(['python', 'python', 'np.float64', 'int', 'np.int64'])})
 
 
 def check_jacobi(case, ctx):
@@ -362,22 +517,29 @@ def check_jacobi(case, ctx):
     == sum_n s_n * jacobi(n, a, b, x), any length >= 1, dense or sparse; arguments unchanged; repeatable."""
     from prysm import polynomials as P
     from prysm.polynomials.jacobi import jacobi_sum_clenshaw_der
-    s0 = expand_coefs(case['coefs'], case['seed'], 1)
+    s0 = expand_coefs(case['coefs'], case['seed'], 1)[:BIG_TERMS if is_big(case['x']) else None]
     a, b = case['ab']
     via, xdtype, layout, history = case.get('via', 'plain'), case.get('xdtype', 'float64'), case.get('layout', 'C'), case.get('history', 'none')
+    kw, ab_as = bool(case.get('kw', False)), case.get('ab_as', 'python')
+    a_arg, b_arg = param_as(a, ab_as), param_as(b, ab_as)
     x = points(case['x'], case['seed'], -1.0, 1.0, 2, xdtype, layout)
-    single = (xdtype == 'float32' and not isinstance(x, float)) or case['container'] == 'array-f32'
+    scalar = is_scalar(case['x'])
+    onept = scalar or whole_coords(case['x'], xdtype)        # every coordinate may sit where a mode (nearly) vanishes
+    single = coord_single(case['x'], xdtype) or case['container'] == 'array-f32'
     e = wexp_of(case, single=single or history == 'single-first', integer=case['container'] in ('int-list', 'array-int'))
     arg, s = contain(s0 * 10.0 ** e, case['container'])
     cls, pcls = coef_class(s), pt_class(case['x'])
     ctx.nt(cls != 'dense' or pcls != 'ndim1' or via != 'plain' or case['container'] != 'array' or history != 'none' or e != 0 or
-           (not isinstance(x, float) and (xdtype != 'float64' or layout != 'C')))
-    ctx.label(cls, pcls, 'len=%s' % (len(s) if len(s) < 4 else ('4+' if len(s) < 13 else '13+')), 'a+b in {0,-1}' if a + b in (0, -1) else 'general ab',
+           (not scalar and (xdtype != 'float64' or layout != 'C')) or kw or type(a_arg) is not type(a))
+    ctx.label('arguments:' + ('by-name' if kw else 'by-position'), 'alpha-beta-as:%s,%s' % (type(a_arg).__name__, type(b_arg).__name__))
+    ctx.label(cls, pcls, 'points>2**16' if is_big(case['x']) else 'points<=49', 'len=%s' % (len(s) if len(s) < 4 else ('4+' if len(s) < 13 else '13+')), 'a+b in {0,-1}' if a + b in (0, -1) else 'general ab',
               'alpha=beta' if a == b else 'alpha~beta' if abs(a - b) <= 1.5e-4 * max(1.0, abs(a)) else 'alpha!=beta',
               'container:' + case['container'], 'via:' + via, 'history:' + history, exp_label(e),
-              *([] if isinstance(x, float) else ['x:' + xdtype, 'layout:' + layout]))
+              *(pt_labels(case['x'], x) if scalar else ['x:' + xdtype, 'layout:' + layout]))
     if e:
         cls += ':coefficients-1e%+d' % e
+    if scalar:
+        cls += ':x-is-a-' + case['x'][0]
 
     fill = case.get('fill', 'junk')
     if via in ('alphas-reused', 'der-alphas'):
@@ -388,7 +550,7 @@ def check_jacobi(case, ctx):
 
     def ws(shape, xx):
         if shape not in shared:
-            shared[shape] = workspace(fill, shape, np.asarray(x).dtype)
+            shared[shape] = workspace(fill, shape, ws_dtype(x))
             ctx.tally('workspaces allocated', 1)
         else:
             ctx.tally('workspace re-used', 1)
@@ -397,53 +559,68 @@ def check_jacobi(case, ctx):
     def fast(sarg, aa, bb, xx):
         if via == 'alphas-buffer':
             # 'array to store the alpha sums in': every row is assigned, so what the buffer held before is irrelevant
-            buf = np.full((len(sarg),) + np.shape(xx), 3.25, dtype=np.result_type(np.asarray(xx).dtype, np.float32))
-            return _guard(ctx, cls, P.jacobi_sum_clenshaw, sarg, aa, bb, xx, alphas=buf)
+            buf = np.full((len(sarg),) + np.shape(xx), 3.25, dtype=ws_dtype(xx))
+            return _call(ctx, cls, P.jacobi_sum_clenshaw, NAMES['jacobi_sum_clenshaw'], (sarg, aa, bb, xx), kw, alphas=buf)
         if via == 'alphas-reused':
             # the same buffer for every call of the case; 'alphas[0] contains the sum and is returned', so the result is copied out
             # before the buffer is used again
-            return np.array(_guard(ctx, cls, P.jacobi_sum_clenshaw, sarg, aa, bb, xx, alphas=ws((len(sarg),) + np.shape(xx), xx)), copy=True)
+            return np.array(_call(ctx, cls, P.jacobi_sum_clenshaw, NAMES['jacobi_sum_clenshaw'], (sarg, aa, bb, xx), kw, alphas=ws((len(sarg),) + np.shape(xx), xx)), copy=True)
         if via == 'der-alphas':
             # only the returned array is read (the unchanged routine returns its own array and leaves the caller's alone)
-            return np.array(_guard(ctx, cls, jacobi_sum_clenshaw_der, sarg, aa, bb, xx, j=1, alphas=ws((2, len(sarg)) + np.shape(xx), xx))[0][0], copy=True)
+            return np.array(_call(ctx, cls, jacobi_sum_clenshaw_der, NAMES['jacobi_sum_clenshaw_der'], (sarg, aa, bb, xx), kw, j=1,
+                                  alphas=ws((2, len(sarg)) + np.shape(xx), xx))[0][0], copy=True)
         if via == 'der-row0':
-            return _guard(ctx, cls, jacobi_sum_clenshaw_der, sarg, aa, bb, xx, j=1)[0][0]
-        return _guard(ctx, cls, P.jacobi_sum_clenshaw, sarg, aa, bb, xx)
+            return _call(ctx, cls, jacobi_sum_clenshaw_der, NAMES['jacobi_sum_clenshaw_der'], (sarg, aa, bb, xx), kw, j=1)[0][0]
+        return _call(ctx, cls, P.jacobi_sum_clenshaw, NAMES['jacobi_sum_clenshaw'], (sarg, aa, bb, xx), kw)
 
-    if history == 'single-first' and not isinstance(x, float):
-        fast(arg, a, b, points(case['x'], case['seed'], -1.0, 1.0, 2, 'complex64' if xdtype.startswith('complex') else 'float32', layout))
+    if history == 'single-first':
+        fast(arg, a_arg, b_arg, as_single(x, case['x'], case['seed'], -1.0, 1.0, 2, xdtype, layout))
     elif history == 'other-ab':
-        fast(arg, a + 1, b + 0.5, x)
+        fast(arg, a_arg + 1, b_arg + 0.5, x)
+    elif history == 'failed-call':
+        # a request that cannot be served (no coefficient at all; a workspace that does not fit), caught by the caller: nothing is asserted
+        # about it, and the requests after it are served as if it had never been made
+        for bad_args, bad_kw in (((type(arg)(arg[:0]) if not isinstance(arg, np.ndarray) else arg[:0], a_arg, b_arg, x), {}),
+                                 ((arg, a_arg, b_arg, x), {'alphas': np.zeros((len(s), np.size(x) + 2))})):
+            try:
+                P.jacobi_sum_clenshaw(*bad_args, **bad_kw)
+                ctx.label('failed-call:did-not-fail')
+            except Exception:       # noqa  (whatever it raises is the routine's business)
+                ctx.label('failed-call:raised')
+    elif history == 'burst':
+        # many distinct small requests (more recurrence coefficients than the routine's table of them holds), then the checked one
+        for i in range(28):
+            _guard(ctx, cls, P.jacobi_sum_clenshaw, [1.0] * 21, a + 0.03125 * (i + 1), b, 0.5)
     x_before = snapshot(x)
-    got = fast(arg, a, b, x)
+    got = fast(arg, a_arg, b_arg, x)
     ctx.require(same_values(arg, s), 'jacobi_sum_clenshaw:argument-modified:s', 'the coefficients %r became %r (via %s)' % ([float(v) for v in s], arg, via))
     unchanged(ctx, x, x_before, 'jacobi_sum_clenshaw:argument-modified:x', 'the coordinate array')
     xd = f64(x)
-    want, mag = explicit_sum(ctx, lambda n: P.jacobi(n, a, b, xd), s, np.shape(x), np.complex128 if np.iscomplexobj(xd) else np.float64, single=single)
+    want, mag = explicit_sum(ctx, lambda n: P.jacobi(n, a, b, xd), s, np.shape(x), np.complex128 if np.iscomplexobj(xd) else np.float64, single=single, one_point=onept)
     U.check_shape(got, np.shape(x), 'jacobi_sum_clenshaw:' + cls, 'sum of %d terms at x of shape %s' % (len(s), np.shape(x)))
     rtol = 1e-3 if single else 1e-10
-    what = 'jacobi_sum_clenshaw(%r, %r, %r) [%s, %s, x %s %s] vs explicit sum, x.shape=%s' % (
-        [float(v) for v in s], a, b, via, case['container'], xdtype, layout, np.shape(x))
+    what = 'jacobi_sum_clenshaw(%r, %r, %r) [%s, %s, x %s] vs explicit sum, x.shape=%s' % (
+        [float(v) for v in s], a, b, via, case['container'], '= %r (%s)' % (x, type(x).__name__) if scalar else xdtype + ' ' + layout, np.shape(x))
     cmp_sum(got, want, mag, 'jacobi_sum_clenshaw:' + cls, what, rtol=rtol)
     # once more with the same objects, after a call with other coefficients: both results right, the first one untouched
     kept = np.array(got, copy=True)
     arg2, s2 = contain(s[::-1] * 0.5, case['container'])
-    got2 = fast(arg2, a, b, x)
+    got2 = fast(arg2, a_arg, b_arg, x)
     U.check_equal(np.asarray(got), kept, 'jacobi_sum_clenshaw:result-overwritten', 'the first sum after a call with other coefficients (via %s)' % via)
-    want2, mag2 = explicit_sum(ctx, lambda n: P.jacobi(n, a, b, xd), s2, np.shape(x), want.dtype, single=single)
+    want2, mag2 = explicit_sum(ctx, lambda n: P.jacobi(n, a, b, xd), s2, np.shape(x), want.dtype, single=single, one_point=onept)
     cmp_sum(got2, want2, mag2, 'jacobi_sum_clenshaw:second-call:' + cls, 'other coefficients, ' + what, rtol=rtol)
-    got3 = fast(arg, a, b, x)
+    got3 = fast(arg, a_arg, b_arg, x)
     cmp_sum(got3, want, mag, 'jacobi_sum_clenshaw:repeat:' + cls, 'the same objects again, ' + what, rtol=rtol)
 
 
 # ---- Qbfs / Qcon -----------------------------------------------------------------------------------
 def strat_q1d(tier):
-    return st.fixed_dictionaries({'fn': st.sampled_from(['clenshaw_qbfs', 'clenshaw_qbfs', 'clenshaw_qbfs_der', 'compute_z_zprime_Qbfs', 'compute_z_zprime_Qcon']),
-                                  'coefs': coef_spec(LMAX[tier]), 'u': point_spec(DMAX[tier]).filter(lambda s: s[0] == 'array'),
-                                  'container': st.sampled_from(CONTAINERS), 'udtype': st.sampled_from(['float64', 'float64', 'float64', 'float32']),
+    return st.fixed_dictionaries({'fn': st.sampled_from(['clenshaw_qbfs', 'clenshaw_qbfs', 'clenshaw_qbfs_der', 'compute_z_zprime_Qbfs', 'compute_z_zprime_Qcon', 'compute_z_zprime_Qcon']),
+                                  'coefs': coef_spec(LMAX[tier]), 'u': point_spec(DMAX[tier], big=True),
+                                  'container': st.sampled_from(CONTAINERS), 'udtype': st.sampled_from(COORD_DTYPES),
                                   'layout': U.layouts, 'history': st.sampled_from(['none', 'none', 'single-first', 'other-fn']), 'seed': U.seeds, 'wexp': wexps,
                                   # the documented alphas= workspace of clenshaw_qbfs / clenshaw_qbfs_der: not given, or one buffer for every call
-                                  'ws': st.sampled_from(['none', 'zeros', 'zeros', 'junk', 'nan'])})
+                                  'ws': st.sampled_from(['none', 'zeros', 'zeros', 'junk', 'nan']), 'kw': st.booleans()})
 
 
 def check_q1d(case, ctx):
@@ -451,19 +628,25 @@ def check_q1d(case, ctx):
     _Qcon == sum_n c_n Qbfs(n,u) / Qcon(n,u); the coefficient object is not modified and gives the same surface when used again."""
     from prysm import polynomials as P
     from prysm.polynomials import qpoly as Q
-    c0 = expand_coefs(case['coefs'], case['seed'], 1)
+    c0 = expand_coefs(case['coefs'], case['seed'], 1)[:BIG_TERMS if is_big(case['u']) else None]
     udtype, layout, history = case.get('udtype', 'float64'), case.get('layout', 'C'), case.get('history', 'none')
     u = points(case['u'], case['seed'], 0.0, 1.0, 2, udtype, layout)
-    single = udtype == 'float32' or case['container'] == 'array-f32'
+    scalar = is_scalar(case['u'])
+    onept = scalar or whole_coords(case['u'], udtype)        # every coordinate may sit where a mode (nearly) vanishes
+    single = coord_single(case['u'], udtype) or case['container'] == 'array-f32'
     e = wexp_of(case, single=single or history == 'single-first', integer=case['container'] in ('int-list', 'array-int'))
     arg, c = contain(c0 * 10.0 ** e, case['container'])
     cls, pcls, fn = coef_class(c), pt_class(case['u']), case['fn']
+    kw = bool(case.get('kw', False))
     ctx.nt(cls != 'dense' or pcls != 'ndim1' or case['container'] != 'array' or history != 'none' or udtype != 'float64' or layout != 'C' or e != 0
-           or (case.get('ws', 'none') != 'none' and fn.startswith('clenshaw')))
-    ctx.label(fn, cls, pcls, 'len=%s' % (len(c) if len(c) < 4 else ('4+' if len(c) < 13 else '13+')), 'container:' + case['container'],
-              'u:' + udtype, 'layout:' + layout, 'history:' + history, exp_label(e))
+           or (case.get('ws', 'none') != 'none' and fn.startswith('clenshaw')) or kw)
+    ctx.label('arguments:' + ('by-name' if kw else 'by-position'))
+    ctx.label(fn, cls, pcls, 'points>2**16' if is_big(case['u']) else 'points<=49', 'len=%s' % (len(c) if len(c) < 4 else ('4+' if len(c) < 13 else '13+')),
+              'container:' + case['container'], 'history:' + history, exp_label(e), *(pt_labels(case['u'], u) + [fn + ':' + case['u'][0]] if scalar else ['u:' + udtype, 'layout:' + layout]))
     if e:
         cls += ':coefficients-1e%+d' % e
+    if scalar:
+        cls += ':u-is-a-' + case['u'][0]
     usq = u * u
     ud = f64(u)
     # clenshaw_qbfs assigns every row of its workspace (any previous content); clenshaw_qbfs_der documents rows it leaves at their
@@ -485,23 +668,23 @@ def check_q1d(case, ctx):
         if 'buf' in shared:
             ctx.tally('workspace re-used', 1)
         else:
-            shared['buf'] = workspace(wsk, ((2,) if fn == 'clenshaw_qbfs_der' else ()) + (len(carg),) + np.shape(uusq), usq.dtype)
+            shared['buf'] = workspace(wsk, ((2,) if fn == 'clenshaw_qbfs_der' else ()) + (len(carg),) + np.shape(uusq), ws_dtype(usq))
         return {'alphas': shared['buf']}
 
     def fast(name, carg, uu, uusq):
         if name == 'clenshaw_qbfs':
-            return _guard(ctx, cls, Q.clenshaw_qbfs, carg, uusq, **ws(name, carg, uusq))
+            return _call(ctx, cls, Q.clenshaw_qbfs, NAMES[name], (carg, uusq), kw, **ws(name, carg, uusq))
         if name == 'clenshaw_qbfs_der':
-            al = _guard(ctx, cls, Q.clenshaw_qbfs_der, carg, uusq, j=1, **ws(name, carg, uusq))
+            al = _call(ctx, cls, Q.clenshaw_qbfs_der, NAMES[name], (carg, uusq), kw, j=1, **ws(name, carg, uusq))
             ctx.require(np.shape(al)[:1] == (2,) and np.shape(al)[1] >= 2, name + ':alphas-shape', 'alphas has shape %s' % (np.shape(al),))
             return (uusq * (1 - uusq)) * 2 * (al[0][0] + al[0][1])       # as documented for the alphas of this function
-        res = _guard(ctx, cls, getattr(Q, name), carg, uu, uusq)
+        res = _call(ctx, cls, getattr(Q, name), NAMES[name], (carg, uu, uusq), kw)
         ctx.require(len(res) == 2, name + ':arity', '%s returned %d values' % (name, len(res)))
         return res[0]
     mode = (lambda n: P.Qcon(n, ud)) if fn == 'compute_z_zprime_Qcon' else (lambda n: P.Qbfs(n, ud))   # noqa
 
     if history == 'single-first':
-        u32 = points(case['u'], case['seed'], 0.0, 1.0, 2, 'float32', layout)
+        u32 = as_single(u, case['u'], case['seed'], 0.0, 1.0, 2, 'float32', layout)
         fast(fn, arg, u32, u32 * u32)
     elif history == 'other-fn':
         fast('compute_z_zprime_Qbfs' if fn != 'compute_z_zprime_Qbfs' else 'clenshaw_qbfs', arg, u, usq)
@@ -510,16 +693,17 @@ def check_q1d(case, ctx):
     ctx.require(same_values(arg, c), fn + ':argument-modified:coefficients', 'the coefficients %r became %r' % ([float(v) for v in c], arg))
     unchanged(ctx, u, u_before, fn + ':argument-modified:u', 'the radial coordinate array')
     unchanged(ctx, usq, usq_before, fn + ':argument-modified:usq', 'the squared radial coordinate array')
-    want, mag = explicit_sum(ctx, mode, c, np.shape(u), single=single)
+    want, mag = explicit_sum(ctx, mode, c, np.shape(u), single=single, one_point=onept)
     U.check_shape(got, np.shape(u), '%s:%s' % (fn, cls), 'sag of %d terms at u of shape %s' % (len(c), np.shape(u)))
     rtol = 1e-3 if single else 1e-10
-    what = '%s(%r) [%s, u %s %s] sag vs explicit sum, u.shape=%s' % (fn, [float(v) for v in c], case['container'], udtype, layout, np.shape(u))
+    what = '%s(%r) [%s, u %s] sag vs explicit sum, u.shape=%s' % (fn, [float(v) for v in c], case['container'],
+                                                                  '= %r (%s)' % (u, type(u).__name__) if scalar else udtype + ' ' + layout, np.shape(u))
     cmp_sum(got, want, mag, '%s:%s' % (fn, cls), what, rtol=rtol)
     kept = np.array(got, copy=True)
     arg2, c2 = contain(c[::-1] * 0.5, case['container'])
     got2 = fast(fn, arg2, u, usq)
     U.check_equal(np.asarray(got), kept, fn + ':result-overwritten', 'the first sag after a call with other coefficients')
-    want2, mag2 = explicit_sum(ctx, mode, c2, np.shape(u), single=single)
+    want2, mag2 = explicit_sum(ctx, mode, c2, np.shape(u), single=single, one_point=onept)
     cmp_sum(got2, want2, mag2, '%s:second-call:%s' % (fn, cls), 'other coefficients, ' + what, rtol=rtol)
     got3 = fast(fn, arg, u, usq)
     cmp_sum(got3, want, mag, '%s:repeat:%s' % (fn, cls), 'the same coefficient object again, ' + what, rtol=rtol)
@@ -616,15 +800,16 @@ def strat_q2d(tier):
         else:
             m = st.one_of(st.integers(-3, 3), st.integers(-M, M))
         return st.lists(st.tuples(n, m).map(list), min_size=1, max_size=14, unique_by=lambda p: (p[0], p[1]))
-    return st.fixed_dictionaries({'nms': content.flatmap(pairs), 'zero': st.sampled_from(['none', 'none', 'some']),
+    return st.fixed_dictionaries({'nms': content.flatmap(pairs), 'zero': st.sampled_from(['none', 'none', 'none', 'none', 'some', 'some', 'all']),
                                   # value pattern of the coefficients: independent draws; the sine term of an (n, |m|) repeats the cosine term
                                   # exactly (a term clocked by 45/m degrees); one constant for every term; every coefficient 1
                                   'values': st.sampled_from(['random', 'random', 'mirror', 'mirror', 'constant', 'ones']),
-                                  'pts': point_spec(DMAX[tier]).filter(lambda s: s[0] == 'array'),
+                                  'pts': point_spec(DMAX[tier], SCALAR_REAL),
                                   'pairs_as': st.sampled_from(['tuples', 'tuples', 'tuples', 'lists', 'ndarray', 'dict-keys'] + ONE_SHOT_PAIRS),
                                   'coefs_as': st.sampled_from(['list', 'list', 'list', 'array', 'tuple', 'dict-values'] + ONE_SHOT_COEFS),
                                   'outer_as': st.sampled_from(OUTER_AS),
-                                  'udtype': st.sampled_from(['float64', 'float64', 'float64', 'float32']), 'layout': U.layouts, 'seed': U.seeds, 'wexp': wexps})
+                                  'udtype': st.sampled_from(['float64', 'float64', 'float64', 'float32']), 'layout': U.layouts, 'seed': U.seeds, 'wexp': wexps,
+                                  'kw': st.booleans()})
 
 
 def _deep(v):
@@ -662,6 +847,8 @@ def check_q2d(case, ctx):
     cs = np.where(np.abs(cs) < 0.05, 0.05, cs)
     if case['zero'] == 'some' and len(nms) > 1:
         cs[r.integers(0, 2, len(nms)).astype(bool)] = 0.0
+    elif case['zero'] == 'all':                 # every term listed with a coefficient of exactly zero: the surface is identically zero
+        cs[:] = 0.0
     values = case.get('values', 'random')
     if values != 'random':
         first = {}
@@ -672,9 +859,12 @@ def check_q2d(case, ctx):
         elif values == 'constant':
             cs = np.where(cs != 0, float(np.round(r.uniform(0.1, 2.0), 2)), 0.0)
     udtype, layout = case.get('udtype', 'float64'), case.get('layout', 'C')
-    e = wexp_of(case, single=udtype == 'float32')
+    scalar, single = is_scalar(case['pts']), coord_single(case['pts'], udtype)
+    e = wexp_of(case, single=single)
     cs = [float(c) for c in cs * 10.0 ** e]
     pairs_as, coefs_as = case.get('pairs_as', 'tuples'), case.get('coefs_as', 'list')
+    kw = bool(case.get('kw', False))
+    ctx.label('arguments:' + ('by-name' if kw else 'by-position'))
     u = points(case['pts'], case['seed'], 0.0, 1.0, 2, udtype, layout)
     t = points(case['pts'], case['seed'], 0.0, 2 * np.pi, 3, udtype, layout)
     cos_m = {m for _, m in nms if m > 0}
@@ -689,12 +879,12 @@ def check_q2d(case, ctx):
         cls += ':cos-only-order'
     if sin_m - cos_m:
         cls += ':sin-only-order'
-    ctx.nt(bool(lonely) or any(v == 1 for v in lens.values()) or case['zero'] == 'some' or np.ndim(u) != 1 or udtype != 'float64' or layout != 'C'
-           or pairs_as != 'tuples' or coefs_as != 'list' or e != 0 or values != 'random' or case.get('outer_as', 'list') != 'list')
-    ctx.label('families=' + fam, 'order-in-one-family' if lonely else 'orders-paired', 'ndim%d' % np.ndim(u), 'values:' + values,
+    ctx.nt(bool(lonely) or any(v == 1 for v in lens.values()) or case['zero'] != 'none' or np.ndim(u) != 1 or udtype != 'float64' or layout != 'C'
+           or pairs_as != 'tuples' or coefs_as != 'list' or e != 0 or values != 'random' or case.get('outer_as', 'list') != 'list' or kw)
+    ctx.label('families=' + fam, 'order-in-one-family' if lonely else 'orders-paired', 'ndim%d' % np.ndim(u), 'values:' + values, 'zeros:' + case['zero'],
               'has-len1-vector' if any(v == 1 for v in lens.values()) else 'no-len1-vector',
               'unequal-lengths' if any(lens.get(m) != lens.get(-m) for m in cos_m & sin_m) else 'equal-or-unpaired',
-              'pairs_as:' + pairs_as, 'coefs_as:' + coefs_as, 'u:' + udtype, 'layout:' + layout,
+              'pairs_as:' + pairs_as, 'coefs_as:' + coefs_as, *(pt_labels(case['pts'], u) if scalar else ['u:' + udtype, 'layout:' + layout]),
               'maxn>=9' if max(n for n, _ in nms) >= 9 else 'maxn<9', exp_label(e), 'packed-tables-given-as:' + case.get('outer_as', 'list'))
     if e:
         cls += ':coefficients-1e%+d' % e
@@ -703,7 +893,7 @@ def check_q2d(case, ctx):
     arg_cs = coefs_arg(cs, coefs_as)
     if pairs_as in ONE_SHOT_PAIRS or coefs_as in ONE_SHOT_COEFS:
         cls += ':terms-from-a-one-shot-iterable'
-    packed = _guard(ctx, cls, Q.Q2d_nm_c_to_a_b, arg_nms, arg_cs)
+    packed = _call(ctx, cls, Q.Q2d_nm_c_to_a_b, NAMES['Q2d_nm_c_to_a_b'], (arg_nms, arg_cs), kw)
     if pairs_as not in ONE_SHOT_PAIRS:       # (a one-shot iterable is used up by the call, there is nothing to compare)
         ctx.require([(int(p[0]), int(p[1])) for p in arg_nms] == nms, 'Q2d_nm_c_to_a_b:argument-modified:nms', 'the (n,m) list %r became %r' % (nms, arg_nms))
     if coefs_as not in ONE_SHOT_COEFS:
@@ -741,7 +931,7 @@ def check_q2d(case, ctx):
     outer_as = case.get('outer_as', 'list')
     if outer_as not in ('list', 'tuple'):
         cls += ':tables-from-a-one-shot-iterable'
-    res = _guard(ctx, cls, Q.compute_z_zprime_Q2d, cm0, outer_arg(ams, outer_as), outer_arg(bms, outer_as), u, t)
+    res = _call(ctx, cls, Q.compute_z_zprime_Q2d, NAMES['compute_z_zprime_Q2d'], (cm0, outer_arg(ams, outer_as), outer_arg(bms, outer_as), u, t), kw)
     ctx.require(len(res) == 3, 'compute_z_zprime_Q2d:arity', 'returned %d values' % len(res))
     ctx.require(_deep([cm0, ams, bms]) == packed_before, 'compute_z_zprime_Q2d:argument-modified:coefficients',
                 'the packed coefficient vectors were modified by the evaluation (nms=%r)' % (nms,))
@@ -758,12 +948,13 @@ def check_q2d(case, ctx):
         mag += abs(c) * (float(np.max(np.abs(mk))) if mk.size else 0.0)
     # the Clenshaw route forms sums whose partial terms are larger than the modes: use the coefficient scale as floor
     mag = max(mag, float(np.sum(np.abs(cs))))
-    rtol = 1e-3 if udtype == 'float32' else 1e-10
+    rtol = 1e-3 if single else 1e-10
     U.check_shape(res[0], np.shape(u), 'compute_z_zprime_Q2d:' + cls, 'sag at u of shape %s' % (np.shape(u),))
-    what = 'compute_z_zprime_Q2d sag vs sum c*Q2d for nms=%r cs=%r u.shape=%s (%s, %s)' % (nms, cs, np.shape(u), udtype, layout)
+    what = 'compute_z_zprime_Q2d sag vs sum c*Q2d for nms=%r cs=%r u.shape=%s (%s)' % (
+        nms, cs, np.shape(u), 'u = %r, t = %r (%s)' % (u, t, type(u).__name__) if scalar else udtype + ', ' + layout)
     cmp_sum(res[0], want, mag, 'compute_z_zprime_Q2d:sag:' + cls, what, rtol=rtol)
     kept = np.array(res[0], copy=True)
-    res2 = _guard(ctx, cls, Q.compute_z_zprime_Q2d, cm0, outer_arg(ams, outer_as), outer_arg(bms, outer_as), u, t)
+    res2 = _call(ctx, cls, Q.compute_z_zprime_Q2d, NAMES['compute_z_zprime_Q2d'], (cm0, outer_arg(ams, outer_as), outer_arg(bms, outer_as), u, t), kw)
     U.check_equal(np.asarray(res[0]), kept, 'compute_z_zprime_Q2d:result-overwritten', 'the first sag after a second evaluation')
     cmp_sum(res2[0], want, mag, 'compute_z_zprime_Q2d:repeat:' + cls, 'the same packed vectors again, ' + what, rtol=rtol)
 
@@ -772,10 +963,12 @@ def check_q2d(case, ctx):
 def strat_q2d_radial(tier):
     M = {'quick': 8, 'thorough': 16}[tier]
     return st.fixed_dictionaries({'fn': st.sampled_from(['clenshaw_q2d', 'clenshaw_q2d', 'clenshaw_q2d_der']), 'm': st.one_of(st.sampled_from([1, 1, 2, 3]), st.integers(1, M)),
-                                  'coefs': coef_spec({'quick': 30, 'thorough': 60}[tier]), 'u': point_spec(DMAX[tier]).filter(lambda s: s[0] == 'array'),
-                                  'container': st.sampled_from(CONTAINERS), 'udtype': st.sampled_from(['float64', 'float64', 'float64', 'float32']),
+                                  'coefs': coef_spec({'quick': 30, 'thorough': 60}[tier]), 'u': point_spec(DMAX[tier], big=True),
+                                  'container': st.sampled_from(CONTAINERS), 'udtype': st.sampled_from(COORD_DTYPES),
                                   'layout': U.layouts, 'ws': st.sampled_from(['none', 'zeros', 'zeros', 'junk', 'nan']),
-                                  'second': st.sampled_from(['reversed', 'same', 'same-object']), 'seed': U.seeds, 'wexp': wexps})
+                                  'second': st.sampled_from(['reversed', 'same', 'same-object']), 'seed': U.seeds, 'wexp': wexps,
+                                  # arguments by position or by name; the azimuthal order as a Python int or a numpy integer
+                                  'kw': st.booleans(), 'm_as': st.sampled_from(['python', 'python', 'np.int64', 'np.int32'])})
 
 
 def check_q2d_radial(case, ctx):
@@ -784,10 +977,12 @@ def check_q2d_radial(case, ctx):
     is used for every call of the case; coefficients and coordinates are not modified."""
     from prysm import polynomials as P
     from prysm.polynomials import qpoly as Q
-    c0 = expand_coefs(case['coefs'], case['seed'], 1)
+    c0 = expand_coefs(case['coefs'], case['seed'], 1)[:BIG_TERMS if is_big(case['u']) else None]
     fn, m, udtype, layout, second = case['fn'], int(case['m']), case.get('udtype', 'float64'), case.get('layout', 'C'), case.get('second', 'reversed')
     u = points(case['u'], case['seed'], 0.0, 1.0, 2, udtype, layout)
-    single = udtype == 'float32' or case['container'] == 'array-f32'
+    scalar = is_scalar(case['u'])
+    onept = scalar or whole_coords(case['u'], udtype)        # every coordinate may sit where a mode (nearly) vanishes
+    single = coord_single(case['u'], udtype) or case['container'] == 'array-f32'
     e = wexp_of(case, single=single, integer=case['container'] in ('int-list', 'array-int'))
     arg, c = contain(c0 * 10.0 ** e, case['container'])
     cls, pcls = coef_class(c), pt_class(case['u'])
@@ -796,11 +991,15 @@ def check_q2d_radial(case, ctx):
     wsk = case.get('ws', 'none')
     if fn == 'clenshaw_q2d_der' and wsk != 'none':
         wsk = 'zeros'
+    kw, m_arg = bool(case.get('kw', False)), param_as(m, case.get('m_as', 'python'))
     ctx.nt(True)
-    ctx.label(fn, cls, pcls, 'm=1' if m == 1 else 'm=2,3' if m <= 3 else 'm>3', 'len=%s' % (len(c) if len(c) < 5 else ('5+' if len(c) < 13 else '13+')),
-              'container:' + case['container'], 'u:' + udtype, 'layout:' + layout, 'workspace:' + wsk, 'second:' + second, exp_label(e),
-              'B.7-term' if m == 1 and len(c) > 3 else 'no-B.7-term')
+    ctx.label('arguments:' + ('by-name' if kw else 'by-position'), 'm-as:' + type(m_arg).__name__)
+    ctx.label(fn, cls, pcls, 'points>2**16' if is_big(case['u']) else 'points<=49', 'm=1' if m == 1 else 'm=2,3' if m <= 3 else 'm>3', 'len=%s' % (len(c) if len(c) < 5 else ('5+' if len(c) < 13 else '13+')),
+              'container:' + case['container'], 'workspace:' + wsk, 'second:' + second, exp_label(e),
+              'B.7-term' if m == 1 and len(c) > 3 else 'no-B.7-term', *(pt_labels(case['u'], u) if scalar else ['u:' + udtype, 'layout:' + layout]))
     cls += ':m=1' if m == 1 else ''
+    if scalar:
+        cls += ':usq-is-a-' + case['u'][0]
     if e:
         cls += ':coefficients-1e%+d' % e
     if wsk != 'none':
@@ -810,14 +1009,14 @@ def check_q2d_radial(case, ctx):
     shared = {}
 
     def fast(carg):
-        kw = {}
+        kwa = {}
         if wsk != 'none':
             if 'buf' in shared:
                 ctx.tally('workspace re-used', 1)
             else:
-                shared['buf'] = workspace(wsk, ((2,) if fn == 'clenshaw_q2d_der' else ()) + (len(carg),) + np.shape(usq), usq.dtype)
-            kw['alphas'] = shared['buf']
-        al = _guard(ctx, cls, getattr(Q, fn), carg, m, usq, **kw)
+                shared['buf'] = workspace(wsk, ((2,) if fn == 'clenshaw_q2d_der' else ()) + (len(carg),) + np.shape(usq), ws_dtype(usq))
+            kwa['alphas'] = shared['buf']
+        al = _call(ctx, cls, getattr(Q, fn), NAMES[fn], (carg, m_arg, usq), kw, **kwa)
         want_shape = ((2,) if fn == 'clenshaw_q2d_der' else ()) + (len(carg),) + np.shape(usq)
         ctx.require(np.shape(al) == want_shape, fn + ':alphas-shape', 'alphas has shape %s, expected %s' % (np.shape(al), want_shape))
         if fn == 'clenshaw_q2d_der':
@@ -833,12 +1032,12 @@ def check_q2d_radial(case, ctx):
     got = fast(arg)
     ctx.require(same_values(arg, c), fn + ':argument-modified:coefficients', 'the coefficients %r became %r' % ([float(v) for v in c], arg))
     unchanged(ctx, usq, u_before, fn + ':argument-modified:usq', 'the squared radial coordinate array')
-    want, mag = explicit_sum(ctx, mode, c, np.shape(u), single=single)
+    want, mag = explicit_sum(ctx, mode, c, np.shape(u), single=single, one_point=onept)
     # the Clenshaw route forms sums whose partial terms are larger than the modes: the coefficient scale is the floor
     mag = max(mag, float(np.sum(np.abs(c))))
     rtol = 1e-3 if single else 1e-10
-    what = 'u^%d * radial sum of %s(%r, m=%d) [%s, u %s %s, workspace %s] vs sum c_n Q2d(n, %d, u, 0), u.shape=%s' % (
-        m, fn, [float(v) for v in c], m, case['container'], udtype, layout, wsk, m, np.shape(u))
+    what = 'u^%d * radial sum of %s(%r, m=%d) [%s, u %s, workspace %s] vs sum c_n Q2d(n, %d, u, 0), u.shape=%s' % (
+        m, fn, [float(v) for v in c], m, case['container'], '= %r (%s)' % (u, type(u).__name__) if scalar else udtype + ' ' + layout, wsk, m, np.shape(u))
     cmp_sum(got, want, mag, '%s:%s' % (fn, cls), what, rtol=rtol)
     if second == 'reversed':
         arg2, c2 = contain(c[::-1] * 0.5, case['container'])
@@ -847,7 +1046,7 @@ def check_q2d_radial(case, ctx):
     else:
         arg2, c2 = arg, c
     got2 = fast(arg2)
-    want2, mag2 = explicit_sum(ctx, mode, c2, np.shape(u), single=single)
+    want2, mag2 = explicit_sum(ctx, mode, c2, np.shape(u), single=single, one_point=onept)
     cmp_sum(got2, want2, max(mag2, float(np.sum(np.abs(c2)))), '%s:second-call:%s' % (fn, cls), 'second call (%s coefficients), ' % second + what, rtol=rtol)
     got3 = fast(arg)
     cmp_sum(got3, want, mag, '%s:repeat:%s' % (fn, cls), 'the same coefficient object again, ' + what, rtol=rtol)
@@ -858,7 +1057,7 @@ def strat_q2d_direct(tier):
     N, M = {'quick': (12, 8), 'thorough': (30, 16)}[tier]
     vec = st.one_of(st.just(0), st.just(0), st.sampled_from([1, 1, 2]), st.integers(1, 6), st.integers(1, N))   # radial length, 0 = empty
     return st.fixed_dictionaries({'cm0': st.one_of(st.just(-1), vec), 'lens': st.lists(st.tuples(vec, vec).map(list), min_size=0, max_size=M),
-                                  'pts': point_spec(DMAX[tier]).filter(lambda s: s[0] == 'array'),
+                                  'pts': point_spec(DMAX[tier], SCALAR_REAL),
                                   'container': st.sampled_from(['list', 'list', 'array', 'array', 'tuple', 'view']),
                                   'udtype': st.sampled_from(['float64', 'float64', 'float64', 'float32']), 'layout': U.layouts,
                                   'history': st.sampled_from(['none', 'none', 'single-first', 'other-coefs']), 'seed': U.seeds, 'wexp': wexps,
@@ -867,7 +1066,7 @@ def strat_q2d_direct(tier):
                                   'share': st.sampled_from(['none', 'none', 'none', 'equal', 'same-rows', 'same-table', 'cm0-row']),
                                   'values': st.sampled_from(['random', 'random', 'random', 'ones', 'constant']),
                                   # ams / bms ('iterable of iterables') as a list, a tuple, or something that can be walked once
-                                  'outer_as': st.sampled_from(OUTER_AS)})
+                                  'outer_as': st.sampled_from(OUTER_AS), 'kw': st.booleans()})
 
 
 def check_q2d_direct(case, ctx):
@@ -883,7 +1082,8 @@ def check_q2d_direct(case, ctx):
     r = U.rng_of(case['seed'], 1)
     container, udtype, layout, history = case.get('container', 'list'), case.get('udtype', 'float64'), case.get('layout', 'C'), case.get('history', 'none')
 
-    e = wexp_of(case, single=udtype == 'float32' or history == 'single-first')
+    scalar, single = is_scalar(case['pts']), coord_single(case['pts'], udtype)
+    e = wexp_of(case, single=single or history == 'single-first')
 
     const = float(np.round(r.uniform(0.1, 2.0), 2))
 
@@ -914,10 +1114,13 @@ def check_q2d_direct(case, ctx):
     cls = ('a-empty' if any(a == 0 and b > 0 for a, b in zip(alens, blens)) else '') + \
           ('b-empty' if any(b == 0 and a > 0 for a, b in zip(alens, blens)) else '') or 'paired'
     twins = [i + 1 for i in range(M) if alens[i] and ams[i] == bms[i]]
+    kw = bool(case.get('kw', False))
+    ctx.label('arguments:' + ('by-name' if kw else 'by-position'))
     ctx.nt(one_only or has1 or np.ndim(u) != 1 or container != 'list' or udtype != 'float64' or layout != 'C' or history != 'none' or e != 0
-           or share != 'none' or values != 'random' or case.get('outer_as', 'list') != 'list')
+           or share != 'none' or values != 'random' or case.get('outer_as', 'list') != 'list' or kw)
     ctx.label(cls, 'has-len1-vector' if has1 else 'no-len1-vector', 'cm0=%s' % ('None' if cm0 is None else ('empty' if not cm0 else 'given')),
-              'M=0' if M == 0 else 'M>0', 'ndim%d' % np.ndim(u), 'container:' + container, 'u:' + udtype, 'layout:' + layout, 'history:' + history,
+              'M=0' if M == 0 else 'M>0', 'ndim%d' % np.ndim(u), 'container:' + container, 'history:' + history,
+              *(pt_labels(case['pts'], u) if scalar else ['u:' + udtype, 'layout:' + layout]),
               exp_label(e), 'share:' + share, 'values:' + values, *_twin_labels(twins, {i + 1: alens[i] for i in range(M)}))
     if e:
         cls += ':coefficients-1e%+d' % e
@@ -937,12 +1140,12 @@ def check_q2d_direct(case, ctx):
         # the two outer iterables of one call (new one-shot objects every time; the vectors inside are the same objects throughout)
         return outer_arg(a_ams, outer_as), outer_arg(a_bms, outer_as)
     if history == 'single-first':
-        _guard(ctx, cls, Q.compute_z_zprime_Q2d, a_cm0, *tabs(), points(case['pts'], case['seed'], 0.0, 1.0, 2, 'float32', layout),
-               points(case['pts'], case['seed'], 0.0, 2 * np.pi, 3, 'float32', layout))
+        _guard(ctx, cls, Q.compute_z_zprime_Q2d, a_cm0, *tabs(), as_single(u, case['pts'], case['seed'], 0.0, 1.0, 2, 'float32', layout),
+               as_single(t, case['pts'], case['seed'], 0.0, 2 * np.pi, 3, 'float32', layout))
     elif history == 'other-coefs':
         _guard(ctx, cls, Q.compute_z_zprime_Q2d, None if cm0 is None else wrap([2 * v for v in cm0]), [wrap(v[::-1]) for v in ams], [wrap(v[::-1]) for v in bms], u, t)
     u_before, t_before = snapshot(u), snapshot(t)
-    res = _guard(ctx, cls, Q.compute_z_zprime_Q2d, a_cm0, *tabs(), u, t)
+    res = _call(ctx, cls, Q.compute_z_zprime_Q2d, NAMES['compute_z_zprime_Q2d'], (a_cm0, *tabs(), u, t), kw)
     ctx.require(len(res) == 3, 'compute_z_zprime_Q2d:arity', 'returned %d values' % len(res))
     ctx.require(_deep([a_cm0, a_ams, a_bms]) == _deep([cm0, ams, bms]), 'compute_z_zprime_Q2d:argument-modified:coefficients',
                 'the coefficient vectors (%s) were modified by the evaluation: cm0=%r ams=%r bms=%r became %r %r %r' % (container, cm0, ams, bms, a_cm0, a_ams, a_bms))
@@ -960,18 +1163,26 @@ def check_q2d_direct(case, ctx):
         want = want + c * mk
         mag += abs(c) * (float(np.max(np.abs(mk))) if mk.size else 0.0)
     mag = max(mag, sum(abs(c) for _, c in terms))
-    rtol = 1e-3 if udtype == 'float32' else 1e-10
+    rtol = 1e-3 if single else 1e-10
     U.check_shape(res[0], np.shape(u), 'compute_z_zprime_Q2d:' + cls, 'sag at u of shape %s' % (np.shape(u),))
-    what = 'compute_z_zprime_Q2d sag vs explicit sum, cm0=%r ams=%r bms=%r (%s, u %s %s)' % (cm0, ams, bms, container, udtype, layout)
+    what = 'compute_z_zprime_Q2d sag vs explicit sum, cm0=%r ams=%r bms=%r (%s, u %s)' % (
+        cm0, ams, bms, container, '= %r, t = %r (%s)' % (u, t, type(u).__name__) if scalar else udtype + ' ' + layout)
     cmp_sum(res[0], want, mag, 'compute_z_zprime_Q2d:sag:direct:' + cls, what, rtol=rtol)
     kept = np.array(res[0], copy=True)
-    res2 = _guard(ctx, cls, Q.compute_z_zprime_Q2d, a_cm0, *tabs(), u, t)
+    res2 = _call(ctx, cls, Q.compute_z_zprime_Q2d, NAMES['compute_z_zprime_Q2d'], (a_cm0, *tabs(), u, t), kw)
     U.check_equal(np.asarray(res[0]), kept, 'compute_z_zprime_Q2d:result-overwritten', 'the first sag after a second evaluation')
     cmp_sum(res2[0], want, mag, 'compute_z_zprime_Q2d:repeat:direct:' + cls, 'the same coefficient objects again, ' + what, rtol=rtol)
 
 
 # ---- lstsq -----------------------------------------------------------------------------------------
 ORDINARY_MASKS = ['none', 'nan', 'nan', 'inf', 'mixed', 'mixed', 'row', 'disc', 'one-row']
+# value pattern of the synthesising coefficients, i.e. of the data: independent values; the all-zero vector (data identically 0 on
+# the valid samples: fitting an exact residual); exactly one non-zero entry (the data is a multiple of one mode); one value for every
+# term; whole numbers; one term 1e8 times larger than the others (a dominant outlier: the small ones are still recovered to the
+# accuracy the conditioning allows)
+CPATS = ['random', 'random', 'random', 'random', 'zero', 'zero', 'single', 'single', 'equal', 'whole', 'dominant']
+# magnitude of the data, far end: squares (and for the largest also sums) of the samples leave the double range
+LSTSQ_WEXPS = WEXPS + [-150, 150, -290, 250]
 PARTIAL_MASKS = ['subaperture', 'annulus', 'halfplane']      # valid samples cover only part of the domain the basis is orthogonal on
 COND_MAX = 1e9
 
@@ -985,7 +1196,10 @@ def strat_lstsq(tier):
               'modes_layout': U.layouts, 'geom': st.tuples(g, g, g).map(list), 'history': st.sampled_from(['none', 'none', 'single-first', 'other-data']),
               'seed': U.seeds,
               # magnitude of the data (heights in metres, photon counts) and of the basis (all modes alike: the conditioning is unchanged)
-              'wexp': wexps, 'mexp': st.sampled_from([0, 0, 0, 0, -9, -17, 6, 30]),
+              # precision / type of the arguments: double; the data, the modes or both in single precision (well-conditioned fits only); the
+              # modes whole numbers held in an int64 array (segment masks, index ramps)
+              'prec': st.sampled_from(['double', 'double', 'double', 'double', 'double', 'data-single', 'modes-single', 'both-single', 'modes-int64', 'modes-int64']),
+              'wexp': st.sampled_from(LSTSQ_WEXPS), 'mexp': st.sampled_from([0, 0, 0, 0, -9, -17, 6, 30]), 'cpat': st.sampled_from(CPATS),
               # what the modes hold at the samples the fit is told to ignore: a basis that is NaN / infinite outside its aperture
               'modes_bad': st.sampled_from(['finite', 'finite', 'nan', 'nan', 'inf', 'mixed', 'one-mode-nan', 'huge'])}
     ordinary = st.fixed_dictionaries(dict(common, **{
@@ -1071,6 +1285,12 @@ def check_lstsq(case, ctx):
     marker = {'inf': [np.inf, -np.inf], 'mixed': [np.nan, np.inf, -np.inf]}.get(kind, [np.nan])
     marks = np.asarray(marker)[r.integers(0, len(marker), shape)]
     valid = ~bad.ravel()
+    prec = case.get('prec', 'double')
+    if prec == 'modes-int64':
+        if cplx or int(case.get('mexp', 0)) != 0:
+            prec = 'double'              # an integer array holds neither complex values nor 1e-9 (nor NaN: the modes stay finite, see below)
+        else:
+            modes_all = np.rint(3 * modes_all)
     A_all = modes_all.reshape(k0, -1)[:, valid].T
     if A_all.shape[0] < 1:
         ctx.exclude('no valid sample')
@@ -1093,13 +1313,39 @@ def check_lstsq(case, ctx):
     dexp, mexp = wexp_of(case), int(case.get('mexp', 0))
     if history == 'single-first':        # the single-precision fit that precedes the checked one must stay inside the float32 range
         dexp, mexp = max(-20, min(dexp, 6)), max(-9, min(mexp, 6))
-    modes, c = np.ascontiguousarray(modes_all[:k]) * 10.0 ** mexp, c_all[:k] * 10.0 ** (dexp - mexp)
-    A = A_all[:, :k] * 10.0 ** mexp
+    if prec.endswith('single') and not cond < 1e3:
+        prec = 'double'                  # single precision arguments: only where eps32 * cond leaves a meaningful statement
+    if prec.endswith('single'):
+        dexp, mexp = max(-20, min(dexp, 6)), max(-9, min(mexp, 6))
+    if abs(dexp) > 30:                   # the far ends of the double range belong to the data alone (the coefficients must stay normal numbers)
+        mexp = 0
+    eps = float(np.finfo(np.float32).eps) if prec.endswith('single') else EPS
+    ddt = (np.complex64 if cplx else np.float32) if prec in ('data-single', 'both-single') else None
+    mdt = (np.complex64 if cplx else np.float32) if prec in ('modes-single', 'both-single') else np.int64 if prec == 'modes-int64' else None
+
+    def as_data(d):
+        return d if ddt is None else d.astype(ddt)
+    cpat = case.get('cpat', 'random')
+    c_pat = c_all[:k].copy()
+    jc = int(seed) % k
+    if cpat == 'zero':
+        c_pat[:] = 0.0
+    elif cpat == 'single':
+        c_pat[np.arange(k) != jc] = 0.0
+    elif cpat == 'equal':
+        c_pat[:] = c_pat[jc]
+    elif cpat == 'whole':
+        c_pat = np.sign(c_pat.real) * np.ceil(np.abs(c_pat.real) * 5) + (0j if cplx else 0.0)
+    elif cpat == 'dominant':
+        c_pat = c_pat * 1e-8
+        c_pat[jc] = c_all[jc]
+    ctx.label('coefficients:' + cpat)
+    modes, c = np.ascontiguousarray(modes_all[:k]) * 10.0 ** mexp, c_pat * 10.0 ** (dexp - mexp)
     data = np.tensordot(c, modes, axes=(0, 0))
     dscale = 10.0 ** dexp
-    mbad = case.get('modes_bad', 'finite') if bad.any() else 'finite'
-    ctx.nt(bad.any() or cplx or history != 'none' or mlay != 'C' or dexp != 0 or mexp != 0)
-    ctx.label('data-' + exp_label(dexp), 'modes-' + exp_label(mexp), 'modes-at-ignored-samples:' + mbad)
+    mbad = case.get('modes_bad', 'finite') if bad.any() and prec != 'modes-int64' else 'finite'
+    ctx.nt(bad.any() or cplx or history != 'none' or mlay != 'C' or dexp != 0 or mexp != 0 or cpat != 'random' or prec != 'double')
+    ctx.label('arguments:' + prec, 'data-' + exp_label(dexp), 'modes-' + exp_label(mexp), 'modes-at-ignored-samples:' + mbad)
     dec = 0 if cond < 10 else int(np.floor(np.log10(cond)))
     ctx.label('modes:' + mkind, 'mask:' + kind, 'k=%s' % (k if k < 4 else ('4+' if k < 11 else '11+')), 'masked>0' if bad.any() else 'masked=0',
               'cond:1e%d' % dec if dec < 4 else ('cond:1e4..1e6' if dec < 6 else 'cond:1e6..1e9'), 'container:' + case['container'], 'history:' + history,
@@ -1115,10 +1361,20 @@ def check_lstsq(case, ctx):
         if mbad == 'one-mode-nan':
             where[np.arange(k) != int(rm.integers(0, k))] = False
         modes_arg[where] = junk[where]
+    if mdt is not None:
+        with np.errstate(over='ignore'):         # (1e300 at an ignored sample becomes inf in single precision: still an ignored sample)
+            modes_arg = modes_arg.astype(mdt)
     modes_arg = U.relayout(modes_arg, mlay)
     arg_modes = {'list': [m for m in modes_arg], 'tuple': tuple(m for m in modes_arg)}.get(case['container'], modes_arg)
     cls = 'mask=' + kind + ('' if mbad == 'finite' else ':modes-%s-at-ignored-samples' % mbad) + ('' if dexp == mexp == 0 else ':data-1e%+d:modes-1e%+d' % (dexp, mexp))
-    cscale = float(np.max(np.abs(c)))
+    if prec != 'double':
+        cls += ':' + prec
+    if cpat != 'random':
+        cls += ':coefficients-' + {'zero': 'all-zero', 'single': 'one-non-zero', 'equal': 'all-equal', 'whole': 'whole-numbers', 'dominant': 'one-dominant'}[cpat]
+    # the scale of the coefficients; for the all-zero vector the coefficients data of this magnitude would have (the fit is linear in
+    # the data: zero data gives zero coefficients, never NaN)
+    cunit = 10.0 ** (dexp - mexp)
+    cscale = float(np.max(np.abs(c))) if np.any(c != 0) else cunit
 
     def fit(d):
         got = _guard(ctx, cls, P.lstsq, modes=arg_modes, data=d) if case.get('kw', False) else _guard(ctx, cls, P.lstsq, arg_modes, d)
@@ -1130,31 +1386,32 @@ def check_lstsq(case, ctx):
     d1[bad] = marks[bad]
     lay = case.get('layout', 'C')
     ctx.label('layout:' + lay)
-    d1 = U.relayout(d1, lay)       # same values, another memory layout (Fortran order / transposed view / strided view)
+    d1 = U.relayout(as_data(d1), lay)       # same values, another memory layout (Fortran order / transposed view / strided view)
     if history == 'single-first':
         with np.errstate(over='ignore'):
             _guard(ctx, cls, P.lstsq, np.asarray(modes_arg).astype(np.complex64 if cplx else np.float32), d1.astype(np.complex64 if cplx else np.float32))
     elif history == 'other-data':
-        fit(U.relayout(np.where(bad, np.nan, dscale + data[::-1, ::-1]), lay))
+        fit(U.relayout(as_data(np.where(bad, np.nan, dscale + data[::-1, ::-1])), lay))
     d1_before, m_before = d1.copy(), modes_arg.copy()
     got = fit(d1)
     unchanged(ctx, d1, d1_before, 'lstsq:argument-modified:data', 'the data array')
     unchanged(ctx, modes_arg, m_before, 'lstsq:argument-modified:modes', 'the mode stack')
     # numpy's SVD solver on the unchanged code: <= 40 cond eps, <= 2e-13 absolute (3000 bases, cond 1 .. 1e10); solving the
     # normal equations instead is wrong by cond^2 eps
-    tol = 1e-10 + 1e3 * cond * EPS
+    tol = 1e-10 + 1e3 * cond * eps
     err = U.check_close(got, c, 0.0, 'lstsq:synthesis:' + cls + (':cond>=1e4' if cond >= 1e4 else ''),
                         'lstsq on %d %s modes %s, %d of %d samples non-finite (cond %.3g, %s, modes %s %s)' % (
                             k, mkind, shape, int(bad.sum()), bad.size, cond, lay, case['container'], mlay), atol=tol * cscale)
     ctx.tally('synthesis error/tolerance x1e6', int(1e6 * err / (tol * cscale)))
+    ctx.require(bool(np.all(np.isfinite(got))), 'lstsq:synthesis:' + cls, 'the fitted coefficients %r are not finite' % (got,))
     kept = got.copy()
     if bad.any():
         # another assignment of non-finite markers, garbage "underneath": same answer
         d2 = data + 1e3 * dscale * r.uniform(-1, 1, shape) * bad
         other = np.asarray([np.inf, -np.inf, np.nan])[r.integers(0, 3, shape)]
         d2[bad] = other[bad]
-        got2 = fit(d2)
-        U.check_close(got2, got, 0.0, 'lstsq:marker-dependent:' + cls, 'same mask, different non-finite markers', atol=1e-12 * cscale)
+        got2 = fit(as_data(d2))
+        U.check_close(got2, got, 0.0, 'lstsq:marker-dependent:' + cls, 'same mask, different non-finite markers', atol=1e-12 * cscale * eps / EPS)
     # the data array is one of the modes - the very object that sits in the mode sequence: the fit is that unit vector.  Only where the
     # finite samples of that mode are exactly the valid samples (no marked sample at all, or every mode non-finite at every marked one)
     if k > 1 and ((not bad.any()) or mbad in ('nan', 'inf')):
@@ -1172,33 +1429,39 @@ def check_lstsq(case, ctx):
     noise = U.rng_of(seed, 8).uniform(-1, 1, shape) + (1j * U.rng_of(seed, 88).uniform(-1, 1, shape) if cplx else 0.0)
     d3 = data + noise * dscale
     d3[U.rng_of(seed, 9).uniform(0, 1, shape) < 0.15] = 0.0    # exact zeros are ordinary samples
-    b = d3.ravel()[valid]
+    d3 = as_data(d3)
+    bs = (d3.astype(np.complex128 if cplx else np.float64) / dscale).ravel()[valid]           # in units of the data's magnitude (plain arithmetic at 1e+250 overflows in the harness' own norms)
     d3[bad] = marks[bad]
     got3 = fit(d3)
     U.check_equal(got, kept, 'lstsq:result-overwritten', 'the first fit after later fits')
+    ctx.require(bool(np.all(np.isfinite(got3))), 'lstsq:not-exactly-the-finite-samples:' + cls, 'the coefficients fitted to noisy data, %r, are not finite' % (got3,))
+    got3s, As = got3 / cunit, A_all[:, :k]        # coefficients in units of 10^(dexp - mexp), modes of order 1
     # least squares over exactly the finite samples  <=>  the residual is orthogonal to every mode on those samples.  A backward
     # stable solver leaves |A^H (A c - b)| <= C eps |A| (|A c - b| + |A| |c| + |b|); observed C <= 13 (2-norms), 1e4 allowed.
     # Leaving out one finite sample, or using one marked sample, changes the left side by |mode value| * |residual there| = O(1).
-    res = A @ got3 - b
-    nA = float(np.linalg.norm(A, 2))
-    grad = float(np.linalg.norm(A.conj().T @ res))
-    bound = 1e4 * EPS * nA * (float(np.linalg.norm(res)) + nA * float(np.linalg.norm(got3)) + float(np.linalg.norm(b)))
+    res = As @ got3s - bs
+    nA = float(np.linalg.norm(As, 2))
+    grad = float(np.linalg.norm(As.conj().T @ res))
+    bound = 1e4 * eps * nA * (float(np.linalg.norm(res)) + nA * float(np.linalg.norm(got3s)) + float(np.linalg.norm(bs)))
     ctx.tally('gradient/bound x1e6', int(1e6 * grad / max(bound, 1e-300)))
     ctx.require(grad <= bound, 'lstsq:not-exactly-the-finite-samples:' + cls,
                 'lstsq on noisy data: |A^H (A c - d)| = %.3g over the %d finite samples, bound %.3g (cond %.3g): the result is not the '
                 'least-squares solution over exactly those samples' % (grad, int(valid.sum()), bound, cond))
     if cond < 1e3:
-        ref = scipy.linalg.lstsq(A, b, lapack_driver='gelsy')[0]
-        U.check_close(got3, ref, 0.0, 'lstsq:not-exactly-the-finite-samples:' + cls,
-                      'lstsq on noisy data vs scipy least squares over the %d finite samples (cond %.3g)' % (int(valid.sum()), cond),
-                      atol=(1e-10 + 1e3 * EPS * (cond + cond ** 2)) * max(float(np.max(np.abs(ref))), 10.0 ** (dexp - mexp)))
+        ref = scipy.linalg.lstsq(As, bs, lapack_driver='gelsy')[0]
+        U.check_close(got3s, ref, 0.0, 'lstsq:not-exactly-the-finite-samples:' + cls,
+                      'lstsq on noisy data vs scipy least squares over the %d finite samples (cond %.3g), coefficients in units of 1e%+d' % (
+                          int(valid.sum()), cond, dexp - mexp),
+                      atol=(1e-10 + 1e3 * eps * (cond + cond ** 2)) * max(float(np.max(np.abs(ref))), 1.0))
 
 
 # ---- consumer: Interferogram.pvr -------------------------------------------------------------------
 def strat_pvr(tier):
     return st.fixed_dictionaries({'n': st.integers(24, {'quick': 40, 'thorough': 64}[tier]), 'terms': st.lists(st.integers(1, 37), min_size=1, max_size=6, unique=True),
                                   'holes': st.sampled_from([0.0, 0.0, 0.05, 0.2]), 'radius': st.sampled_from(['auto', 0.8, 1.0]),
-                                  'layout': U.layouts, 'seed': U.seeds, 'wexp': wexps})
+                                  'layout': U.layouts, 'seed': U.seeds, 'wexp': wexps,
+                                  # value pattern of the heights: the flat surface (every valid height exactly zero, drop-outs still NaN) has PVr 0
+                                  'heights': st.sampled_from(['random', 'random', 'random', 'random', 'flat'])})
 
 
 def check_pvr(case, ctx):
@@ -1223,6 +1486,8 @@ def check_pvr(case, ctx):
     for j in case['terms']:
         nn, mm = P.fringe_to_nm(int(j))
         a = float(r_.uniform(0.2, 1.0)) * 10.0 ** e        # heights in the unit the user chose (nm, m, ...)
+        if case.get('heights', 'random') == 'flat':
+            a = 0.0
         amp += a
         surf = surf + a * np.asarray(ctx.call(P.zernike_nm, nn, mm, rho, tt, norm=False))
     inside = rho <= 1
@@ -1232,8 +1497,10 @@ def check_pvr(case, ctx):
     valid = inside & ~holes
     if valid.sum() < 150:
         ctx.exclude('too few valid samples for a 36 term fit')
-    ctx.nt(bool(holes.any()) or e != 0)
-    ctx.label('holes' if holes.any() else 'no-holes', 'radius:%s' % case['radius'], 'n%%2=%d' % (n % 2), exp_label(e))
+    flat = amp == 0
+    amp = amp or 10.0 ** e                                  # the flat surface is judged on the scale heights of this unit would have
+    ctx.nt(bool(holes.any()) or e != 0 or flat)
+    ctx.label('holes' if holes.any() else 'no-holes', 'radius:%s' % case['radius'], 'n%%2=%d' % (n % 2), exp_label(e), 'heights:' + ('flat' if flat else 'random'))
     lay = case.get('layout', 'C')
     ctx.label('layout:' + lay)
     ifg2 = ctx.call(Interferogram, U.relayout(data, lay), dx=1.0 / n)
@@ -1242,18 +1509,18 @@ def check_pvr(case, ctx):
     unchanged(ctx, ifg2.data, held, 'Interferogram.pvr:data-modified', 'the interferogram data')
     vals = surf[inside]
     want = float(vals.max() - vals.min())
-    U.check_close(got, want, 1e-8, 'Interferogram.pvr' + (':heights-1e%+d' % e if e else ''), atol=1e-8 * amp, what='pvr of a %dx%d map of Fringe terms %r, %d drop-outs (%s)' % (n, n, case['terms'], int(holes.sum()), lay))
+    U.check_close(got, want, 1e-8, 'Interferogram.pvr' + (':heights-1e%+d' % e if e else '') + (':flat-surface' if flat else ''), atol=1e-8 * amp, what='pvr of a %dx%d map of Fringe terms %r, %d drop-outs (%s)' % (n, n, case['terms'], int(holes.sum()), lay))
     again = float(ctx.call(ifg2.pvr, **kw))
     U.check_close(again, want, 1e-8, 'Interferogram.pvr:repeat', atol=1e-8 * amp, what='pvr evaluated a second time on the same object')
 
 
 CLAUSES = [
     HypClause('sum_of_2d_modes', strat_tensor, check_tensor, examples={'quick': 600, 'thorough': 3000}, shards={'quick': 1, 'thorough': 4}),
-    HypClause('jacobi_clenshaw', strat_jacobi, check_jacobi, examples={'quick': 800, 'thorough': 3000}, shards={'quick': 1, 'thorough': 4}),
-    HypClause('qbfs_qcon_sums', strat_q1d, check_q1d, examples={'quick': 800, 'thorough': 3000}, shards={'quick': 1, 'thorough': 4}),
+    HypClause('jacobi_clenshaw', strat_jacobi, check_jacobi, examples={'quick': 600, 'thorough': 3000}, shards={'quick': 2, 'thorough': 4}),
+    HypClause('qbfs_qcon_sums', strat_q1d, check_q1d, examples={'quick': 700, 'thorough': 3000}, shards={'quick': 2, 'thorough': 4}),
     HypClause('q2d_packed_sum', strat_q2d, check_q2d, examples={'quick': 600, 'thorough': 2500}, shards={'quick': 2, 'thorough': 4}),
     HypClause('q2d_direct_sum', strat_q2d_direct, check_q2d_direct, examples={'quick': 500, 'thorough': 2000}, shards={'quick': 1, 'thorough': 4}),
-    HypClause('q2d_radial_sums', strat_q2d_radial, check_q2d_radial, examples={'quick': 500, 'thorough': 2000}, shards={'quick': 1, 'thorough': 4}),
+    HypClause('q2d_radial_sums', strat_q2d_radial, check_q2d_radial, examples={'quick': 700, 'thorough': 2000}, shards={'quick': 1, 'thorough': 4}),
     HypClause('lstsq', strat_lstsq, check_lstsq, examples={'quick': 500, 'thorough': 2500}, shards={'quick': 2, 'thorough': 4}),
     HypClause('pvr_consumer', strat_pvr, check_pvr, examples={'quick': 80, 'thorough': 300}, shards={'quick': 2, 'thorough': 4}),
 ]
